@@ -372,6 +372,68 @@ def shard_nested(seed, count):
     return acc
 
 
+def preempted_step(cpu, peer, k):
+    """one emulate_cycle() of `cpu`; at the k-th executed source line of armulator code inside it the peer runs one whole instruction (what a thread switch
+    between two cores driven from two threads amounts to, with the schedule owned by the harness). Returns (lines executed, peer outcome)"""
+    import sys
+    cnt = [0]
+    out = [None]
+
+    def local(frame, event, arg):
+        if event == 'line':
+            cnt[0] += 1
+            if cnt[0] == k and peer is not None:
+                e = target.step_budget(peer)                  # (not traced: a trace function's own calls never are)
+                out[0] = (digest(target.snapshot(peer)), type(e).__name__ if e is not None else None)
+        return local
+
+    def tr(frame, event, arg):
+        return local if 'armulator' in frame.f_code.co_filename else None
+    sys.settrace(tr)
+    try:
+        e = target.step_budget(cpu)
+    finally:
+        sys.settrace(None)
+    return cnt[0], out[0], (digest(target.snapshot(cpu)), type(e).__name__ if e is not None else None)
+
+
+def preempt_run(cfgname, a, b, ks):
+    target.load_config(gen.CONFIGS[cfgname])
+    nlines, _, a_alone = preempted_step(e1.build(a), None, 0)
+    b_alone = step_trace(e1.build(b), 1)[0]
+    bad = []
+    for k in ks:
+        k = 1 + k % max(nlines, 1)
+        _, b_in, a_with = preempted_step(e1.build(a), e1.build(b), k)
+        if a_with != a_alone or (b_in is not None and b_in != b_alone):
+            bad.append((k, 'preempted' if a_with != a_alone else 'peer'))
+    return nlines, bad
+
+
+def shard_preempt(seed, count, nks):
+    """two instances executing the same kind of instruction (same word, independent register values), one of them interrupted in the middle of its step"""
+    acc = Acc()
+    rng = random.Random(seed)
+    ca, _ct = harvest_words()
+    try:
+        for i in range(count):
+            cfgname = rng.choice(('v7', 'v7', 'v6', 'v7-virt'))
+            w = rng.choice(ca)
+            w2 = rng.choice(ca) if rng.random() < 0.3 else w
+            a = gen.step_case(rng, cfgname, False, e1.enc_arm(w) * 2, code_base=0x8000, e=0, steps=1)
+            b = gen.step_case(rng, cfgname, False, e1.enc_arm(w2) * 2, code_base=0x8000, e=0, steps=1)
+            ks = [rng.getrandbits(16) for _ in range(nks)]
+            nlines, bad = preempt_run(cfgname, a, b, ks)
+            acc.case(nlines > 20, ('preempt', cfgname, w, w2, a['state']['cpsr'], tuple(ks)), cls='preempted-inside-a-step:%s' % ('same-instruction' if w == w2 else 'other-instruction'),
+                     sample=lambda: {'cfg': cfgname, 'word': '%#010x' % w, 'peer_word': '%#010x' % w2, 'source_lines_in_the_step': nlines, 'switch_points_tried': len(ks)})
+            if bad:
+                acc.violation('C20:preempted:%s-result-depends-on-the-other-instance' % bad[0][1], {'kind': 'preempt', 'cfgname': cfgname, 'a': a, 'b': b, 'ks': [bad[0][0] - 1]},
+                              {'word': '%#010x' % w, 'peer_word': '%#010x' % w2, 'switch_at_line': bad[0][0], 'of': nlines, 'all': bad[:8]})
+    finally:
+        target.load_config(None)
+    return acc
+
+
 class Diverged(Exception):
     pass
 
@@ -538,6 +600,7 @@ def run(ctx):
     tasks += [(shard_iso, (ctx.shard_seed(100 + i), ctx.n(120, 1500), ctx.n(25, 40), True)) for i in range(4)]
     tasks += [(shard_iso, (ctx.shard_seed(200 + i), ctx.n(120, 1500), ctx.n(25, 40), False)) for i in range(4)]
     tasks += [(shard_nested, (ctx.shard_seed(500 + i), ctx.n(400, 8000))) for i in range(4)]
+    tasks += [(shard_preempt, (ctx.shard_seed(600 + i), ctx.n(120, 1500), ctx.n(48, 160))) for i in range(8)]
     tasks += [(shard_hub_history, (ctx.shard_seed(400 + i), ctx.n(1500, 30000))) for i in range(4)]
     tasks += [(shard_fresh, (c, ctx.shard_seed(300 + i), ctx.n(60, 1200))) for i, c in enumerate(CFGS)]
     ctx.pmap(_dispatch, tasks)
@@ -557,6 +620,12 @@ def replay(case, bucket=None):
         finally:
             target.load_config(None)
         return ['diverged'] if (alone != together or blog != b_alone) else []
+    if case.get('kind') == 'preempt':
+        try:
+            _n, bad = preempt_run(case['cfgname'], case['a'], case['b'], case['ks'])
+        finally:
+            target.load_config(None)
+        return ['diverged'] if bad else []
     if case.get('kind') == 'hub':
         same, _ = hub_history_case(case['layout'], case['ops_a'], case['ops_b'], case['probe'])
         return [] if same else ['hub answers depend on the access history']
